@@ -58,7 +58,7 @@ func (d *directiveIncludeSkipVisitor) handleSkip(ref int) {
 		return
 	}
 	value := d.operation.ArgumentValue(arg)
-	skip, valid := d.operation.GetBooleanValue(value)
+	skip, valid := d.staticBooleanValue(value)
 	if !valid {
 		return
 	}
@@ -78,7 +78,7 @@ func (d *directiveIncludeSkipVisitor) handleInclude(ref int) {
 		return
 	}
 	value := d.operation.ArgumentValue(arg)
-	include, valid := d.operation.GetBooleanValue(value)
+	include, valid := d.staticBooleanValue(value)
 	if !valid {
 		return
 	}
@@ -87,6 +87,21 @@ func (d *directiveIncludeSkipVisitor) handleInclude(ref int) {
 	} else {
 		d.removeParentNode()
 	}
+}
+
+// staticBooleanValue is GetBooleanValue, except that a variable whose default value is not a
+// Boolean literal is never evaluated here: the directive stays and validation reports the variable.
+func (d *directiveIncludeSkipVisitor) staticBooleanValue(value ast.Value) (out, valid bool) {
+	if value.Kind == ast.ValueKindVariable {
+		name := d.operation.VariableValueNameBytes(value.Ref)
+		for i := range d.operation.VariableDefinitions {
+			def := d.operation.VariableDefinitions[i].DefaultValue
+			if bytes.Equal(name, d.operation.VariableDefinitionNameBytes(i)) && def.IsDefined && def.Value.Kind != ast.ValueKindBoolean {
+				return false, false
+			}
+		}
+	}
+	return d.operation.GetBooleanValue(value)
 }
 
 func (d *directiveIncludeSkipVisitor) removeParentNode() {
